@@ -5,7 +5,7 @@ import random
 
 from .. import contracts, harness
 from ..gen import text as G
-from ..oracles.common import has_error, parents_ok, sig_diff, tree_sig
+from ..oracles.common import has_error, parents_ok, sig_diff, tree_sig, walk
 from . import _text
 
 ID = 'C04'
@@ -14,7 +14,7 @@ RULE = ('histories T0->...->Tn (n<=8) under one virtual path with diff_cache=Tru
         'fragment insertion, block delete/indent/dedent/move, undo to an earlier text, BOM toggle, final-newline / newline-'
         'style toggle, template-line insertion, over corpus slices (45%), structured template programs (35%) and garbage (20%), versions cycled; after every step the returned module '
         'is compared with a fresh parse of that text: signature (class,type,value,prefix,start,end,token type), parent '
-        'links, get_code(), get_used_names() (queried on the cached module before each update); update must not raise. '
+        'links, get_code(), get_used_names() and the facts derived by the helpers (is_generator, params, return/raise statements, is_definition, import names, scope listings, doc nodes), all queried on the cached module before each update; update must not raise. '
         'non-trivial = distinct step in which the diff parser both copied and re-parsed nodes, or that crossed an error node')
 ASSUMPTIONS = ['fresh non-incremental parse of the same text is the reference model',
                'parso.python.diff.DEBUG_DIFF_PARSER is switched on by the harness as a second, in-library alarm']
@@ -25,6 +25,35 @@ def _used_names(m):
     out = {}
     for name, leaves_ in m.get_used_names().items():
         out[name] = sorted(tuple(l.start_pos) for l in leaves_)
+    return out
+
+
+def facts_sig(m):
+    """facts the tree's helpers derive from it (some helpers memoise on the nodes): same for equal trees"""
+    out = []
+    for n in walk(m):
+        t = n.type
+        try:
+            if t == 'funcdef':
+                out.append((n.start_pos, 'funcdef', n.is_generator(), [p.name.value for p in n.get_params()],
+                            len(list(n.iter_return_stmts())), len(list(n.iter_raise_stmts())), n.annotation is not None,
+                            n.get_doc_node() is not None))
+            elif t == 'lambdef':
+                out.append((n.start_pos, 'lambdef', [p.name.value for p in n.get_params()]))
+            elif t == 'classdef':
+                out.append((n.start_pos, 'classdef', n.name.value, n.get_doc_node() is not None,
+                            sorted(f.name.value for f in n.iter_funcdefs())))
+            elif t == 'name':
+                out.append((n.start_pos, 'name', n.is_definition()))
+            elif t in ('import_name', 'import_from'):
+                out.append((n.start_pos, t, [x.value for x in n.get_defined_names()], n.level))
+            elif t == 'file_input':
+                out.append(('module', sorted(f.name.value for f in n.iter_funcdefs()), sorted(c.name.value for c in n.iter_classdefs()),
+                            len(list(n.iter_imports())), n.get_doc_node() is not None))
+        except RecursionError:
+            raise
+        except Exception as e:       # helpers are not total on recovered trees; equal trees must fail equally
+            out.append((getattr(n, 'start_pos', None), t, 'EXC', type(e).__name__))
     return out
 
 
@@ -85,6 +114,7 @@ def _run_history(ctx, v, hist, hid):
                     cached = parser_cache.get(g._hashed, {}).get(pathlib.Path(path))
                     if cached is not None:
                         cached.node.get_used_names()     # populate the derived index on the old tree
+                        facts_sig(cached.node)           # and whatever the helpers memoise on the nodes
                         ctx.count('used_names_primed_on_old_tree')
                 m = g.parse(text, diff_cache=True, path=path)
             except RecursionError:
@@ -122,6 +152,12 @@ def _run_history(ctx, v, hist, hid):
             if un != uf:
                 k = next(k for k in set(un) | set(uf) if un.get(k) != uf.get(k))
                 ctx.violation('used_names_stale', 'step %d: get_used_names()[%r] = %r, fresh tree %r' % (i, k, un.get(k), uf.get(k)), w)
+                return
+            fm, ff = facts_sig(m), facts_sig(f)
+            ctx.count('helper_facts_compared', len(ff))
+            if fm != ff:
+                k = next((a, b) for a, b in zip(fm + [None], ff + [None]) if a != b)
+                ctx.violation('derived_facts_stale', 'step %d: a helper reports %r on the incremental tree, %r on a fresh tree' % (i, k[0], k[1]), w)
                 return
             c = _state['last_counts']
             if c is None:
